@@ -27,3 +27,8 @@ var ghostKey func(e Entry) []byte
 //@   property C09
 //@   trusted
 //@   ensures result1 != nil ==> !result0
+
+//@ func MergeEntries
+//@   property C18
+//@   trusted
+//@   modifies nothing
